@@ -52,6 +52,20 @@ SEEDED = ["anneal", "tabu_search", "lns", "alns", "evolve", "differential_evolut
 RECORDS = {"evolve": {"Individual": ("solution", "fitness")}}
 
 
+def _defs_of(f, name: str) -> list:
+    """right-hand sides bound to the local `name` (plain and element-wise tuple assignments)"""
+    out = []
+    for n in own_nodes(f.node):
+        if not isinstance(n, ast.Assign):
+            continue
+        for t in n.targets:
+            if ast.unparse(t) == name:
+                out.append(n.value)
+            elif isinstance(t, ast.Tuple) and isinstance(n.value, ast.Tuple) and len(t.elts) == len(n.value.elts):
+                out += [v for x, v in zip(t.elts, n.value.elts) if ast.unparse(x) == name]
+    return out
+
+
 def _published(f):
     """[(site, solution expr, internal objective expr)] with to_user unwrapped (through one local variable)."""
     out = []
@@ -60,7 +74,7 @@ def _published(f):
         inner = None
         e = obj
         if isinstance(e, ast.Name):
-            d = [n.value for n in own_nodes(f.node) if isinstance(n, ast.Assign) and ast.unparse(n.targets[0]) == e.id]
+            d = _defs_of(f, e.id)
             if len(d) == 1:
                 e = d[0]
         if isinstance(e, ast.Call) and ast.unparse(e.func) == "evaluate.to_user" and len(e.args) == 1:
@@ -84,7 +98,13 @@ def check_group_a(ctx: Ctx, name: str):
         ctx.ob("C19-O2", "R4 SIGN-UNIT", f, f"Result#{k}: objective is evaluate.to_user(<internal value>)", inner is not None, f"objective `{ast.unparse(raw)}`", node=s.call)
     for n in own_nodes(f.node):
         if isinstance(n, ast.Call) and ast.unparse(n.func) == "report_progress" and len(n.args) >= 6:
-            ok = all(isinstance(a, ast.Call) and ast.unparse(a.func) == "evaluate.to_user" for a in n.args[3:5])
+            def user_sense(a):
+                if isinstance(a, ast.Name):
+                    d = _defs_of(f, a.id)
+                    a = d[0] if len(d) == 1 else a
+                return isinstance(a, ast.Call) and ast.unparse(a.func) == "evaluate.to_user"
+
+            ok = all(user_sense(a) for a in n.args[3:5])
             ctx.ob("C19-O2", "R4 SIGN-UNIT", f, "progress reports carry user-sense values", ok, "", node=n)
             ctx.ob("C19-O4", "R7 EVALUATOR-EXCLUSIVE", f, "progress reports carry evaluate.evals", ast.unparse(n.args[5]) == "evaluate.evals", "", node=n)
 
@@ -706,6 +726,8 @@ def _v_nm_greedy_expansion(tree):
     M.replace_expr(g, lambda e: M.src_is(e, "expanded_val < reflected_val"), M.expr("expanded_val < best_val"))
 
 
+from .c18 import _t_alns_hoisted_user_values  # noqa: E402
+
 VARIANTS = [
     M.Variant("nelder_mead keeps the expansion whenever it beats the best vertex (seed C19-A)", NM, _v_nm_greedy_expansion, "C19-O3"),
 
@@ -728,6 +750,7 @@ VARIANTS = [
     M.Variant("nelder_mead stores the expanded point with the reflected value", NM, _v_nm_wrong_value, "C19-O1"),
     M.Variant("differential evolution starts from the worst individual", DE, _v_de_init_max, "C19-O3"),
     M.Variant("differential evolution loads more warm-start members than it tracks (seed C19-D)", DE, _v_de_warm_start_uncapped, "C19-O3"),
+    M.Variant("twin: alns hoists the user-sense values and publishes the best one", LN, _t_alns_hoisted_user_values, None),
     M.Variant("twin: reformat lns", LN, _t_reformat, None),
     M.Variant("twin: reformat anneal", AN, _t_reformat, None),
     M.Variant("twin: reformat particle_swarm", PS, _t_reformat, None),
